@@ -42,14 +42,44 @@ func (x *extLookup) Type(n string) (reflect.Type, error) {
 	return nil, fmt.Errorf("undefined type '%s'", n)
 }
 
-func extSetup(names []string) vmrun.Setup {
-	if len(names) == 0 {
-		return nil
+type innerKey struct{}
+
+func init() {
+	vmrun.InnerScope = func(ctx context.Context, e *env.Env) *env.Env {
+		x, _ := ctx.Value(innerKey{}).(*extLookup)
+		if x == nil {
+			return nil
+		}
+		for n := range x.names {
+			e.Define(n, int64(50))
+		}
+		in := e.NewEnv()
+		in.SetExternalLookup(x)
+		return in
 	}
+}
+
+func extLookupOf(names []string) *extLookup {
 	x := &extLookup{names: map[string]bool{}}
 	for _, n := range names {
 		x.names[n] = true
 	}
+	return x
+}
+
+// extCtx / extSetup prepare a run of case c: the lookup on the outermost scope (setup), or on a nested scope the script runs in (context)
+func extCtx(c *Case) context.Context {
+	if c.ExtInner && len(c.Ext) > 0 {
+		return context.WithValue(context.Background(), innerKey{}, extLookupOf(c.Ext))
+	}
+	return context.Background()
+}
+
+func extSetup(c *Case) vmrun.Setup {
+	if len(c.Ext) == 0 || c.ExtInner {
+		return nil
+	}
+	x := extLookupOf(c.Ext)
 	return func(e *env.Env) { e.SetExternalLookup(x) }
 }
 
@@ -61,6 +91,8 @@ type Case struct {
 	Unordered bool          `json:"unordered"`
 	// names resolved (each to int64 99) by an external lookup the host installs on the outermost scope
 	Ext []string `json:"ext"`
+	// the lookup sits on a scope NESTED in the host's (where the host also binds the names, to 50) and the script runs in that nested scope
+	ExtInner bool `json:"extinner"`
 	// the concurrent runs come BEFORE the sequential ones: whatever the interpreter builds on first use is then first used concurrently
 	ConcFirst bool `json:"concfirst"`
 	// environments that differ in what the type name "num" means: the same tree is run in each of them
@@ -325,7 +357,7 @@ func main() {
 		obs := make([]vmrun.Obs, 2+nconc)
 		sequential := func() {
 			for k := 0; k < 2; k++ {
-				obs[k], _ = vmrun.Run(context.Background(), stmt, extSetup(c.Ext))
+				obs[k], _ = vmrun.Run(extCtx(&c), stmt, extSetup(&c))
 				sum.Runs++
 				if d := vmrun.Digest(stmt); d != d0 {
 					add(Mismatch{ID: c.ID, Kind: "isolation", What: fmt.Sprintf("tree digest changed by run %d", k+1), Src: src})
@@ -339,7 +371,7 @@ func main() {
 				wg.Add(1)
 				go func(k int, s ast.Stmt) {
 					defer wg.Done()
-					obs[2+k], _ = vmrun.Run(context.Background(), s, extSetup(c.Ext))
+					obs[2+k], _ = vmrun.Run(extCtx(&c), s, extSetup(&c))
 				}(k, stmt)
 			}
 			wg.Wait()
